@@ -13,6 +13,8 @@ TRUSTED = [
     "the scheduler assumes every relevant interleaving point carries a verifhook.Yield or is a Store/Locker/Monitor call",
     "the account locker behind the commander in these runs is scheduler-native and implements the contract proved for DefaultLocker under C15",
     "harness store: durable log + views derived by a fold (the SQL projection is C04's business)",
+    "events: the real bus.NewLedgerMonitor publishes into a recording message.Publisher; each message is decoded (generic JSON) back into the event "
+    "record the oracles and the Events machine consume; the request a message belongs to is the actor bound to the message's context",
     "extract/commander (go/ast translator of internal/engine/command into Generated/Commander.lean): its reading of the Go control flow, its "
     "table of protocol actions, the rule that a call mentioning none of the commander's resources cannot touch the protocol, and the "
     "recorded bodies of the primitives (Referencer.take/release, keepUntilTerminated, terminated, Batcher.Append); tied to the running code by "
@@ -673,7 +675,10 @@ def run_check(ctx, prop, components, nontrivial, rule, quick_n=120, thorough_n=1
     ctx.cov["scenarios"] = len(inputs)
     ctx.cov["distinct_nontrivial"] = nt
     ctx.cov["rule"] = ("random scenarios of 2-%d requests (create by script with the source named by a literal, a variable or a metadata lookup; revert forced or not; "
-                       "set/delete metadata; previews; shared idempotency keys and references; sequential phases and concurrent bursts) x seeded random schedules "
+                       "set/delete metadata; previews; shared idempotency keys (up to 300 bytes) and references; sequential phases and concurrent bursts) + half as many "
+                       "multi-step histories around one entry (reference resubmitted after the revert of its holder; second revert under a fresh key; one key on a real "
+                       "write and a preview; metadata previews with a twin run; chained transaction spent from, then reverted unforced / forced; write - retry - "
+                       "restart - retry under a long key) x seeded random schedules "
                        "over every yield point, persistence latency as a scheduling choice, a crash or a store failure in part of the schedules; non-trivial = %s") % (
                            4 if ctx.quick else 6, rule)
     s0 = inputs[0]
